@@ -21,6 +21,17 @@ VERIF = os.path.dirname(HERE)
 WORK = os.path.join(VERIF, ".work")
 SHIM = os.path.join(HERE, "shim")
 REPO = os.environ.get("VERIF_REPO", "/repo")
+ALT = REPO != "/repo"
+ALT_TAG = re.sub(r"[^A-Za-z0-9]+", "_", REPO).strip("_") if ALT else ""
+if ALT:
+    import shutil
+    _dst = os.path.join(WORK, "shim-crate-" + ALT_TAG)
+    shutil.rmtree(_dst, ignore_errors=True)
+    shutil.copytree(SHIM, _dst, ignore=shutil.ignore_patterns("target"))
+    _ct = os.path.join(_dst, "Cargo.toml")
+    _t = open(_ct).read()
+    open(_ct, "w").write(_t.replace('"/repo/', '"%s/' % REPO.rstrip("/")))
+    SHIM = _dst
 
 MIR_FLAGS = ["-Zunpretty=mir", "-Ztrim-diagnostic-paths=no"]
 SHIM_FLAGS = ["-Zmir-opt-level=2", "-Zinline-mir=yes", "-Zinline-mir-threshold=100000",
@@ -31,7 +42,7 @@ DEP_CRATES = ["lexical-util", "lexical-write-integer", "lexical-parse-float", "l
 
 def _env():
     e = dict(os.environ)
-    e.update({"CARGO_NET_OFFLINE": "true", "CARGO_TARGET_DIR": os.path.join(WORK, "shim-target")})
+    e.update({"CARGO_NET_OFFLINE": "true", "CARGO_TARGET_DIR": os.path.join(WORK, "shim-target" + ("-" + ALT_TAG if ALT else ""))})
     return e
 
 
@@ -88,7 +99,7 @@ def build_driver(features=()):
     feat = ["--features", ",".join(features)] if features else []
     cmd = ["cargo", "build", "--offline", "--manifest-path", os.path.join(SHIM, "Cargo.toml"), "--bin", "driver"] + feat
     e = _env()
-    e["CARGO_TARGET_DIR"] = os.path.join(WORK, "shim-driver-target-" + ("-".join(features) or "default"))
+    e["CARGO_TARGET_DIR"] = os.path.join(WORK, "shim-driver-target-" + ("-".join(features) or "default") + ("-" + ALT_TAG if ALT else ""))
     p = subprocess.run(cmd, capture_output=True, text=True, env=e, cwd=SHIM)
     if p.returncode != 0:
         raise RuntimeError("driver build failed: " + p.stderr[-2000:])
